@@ -102,8 +102,24 @@ pub fn set_lanes(n: usize) {
         SPEC_LANES = n;
     }
 }
+/// shards of `sb` bytes: 32 symbols per full 64-byte block, t/2 in a final block of t bytes
+pub fn set_shard_bytes(sb: usize) {
+    set_lanes(sb / 2);
+}
 pub fn lanes() -> usize {
     unsafe { SPEC_LANES }
+}
+/// (number of blocks per shard, live lanes in block `b`)
+pub fn blocks_per_shard() -> usize {
+    (lanes() + 31) / 32
+}
+pub fn lanes_in_block(b: usize) -> usize {
+    let n = lanes();
+    if (b + 1) * 32 <= n {
+        32
+    } else {
+        n - b * 32
+    }
 }
 
 /// product of a constant (given as its 16 words c*2^b) with a symbol
@@ -136,38 +152,43 @@ pub struct SpecEngine;
 impl SpecEngine {
     fn transform(d: &mut ShardsRefMut, pos: usize, size: usize, trunc: usize, words: &'static [[u16; 16]], is_fft: bool) {
         assert!(size <= MAX_SIZE, "spec table not supplied: transform size");
-        let nl = lanes();
-        let mut lane = 0;
-        while lane < nl {
-            let mut inp = [0u16; MAX_SIZE];
-            let mut kk = 0;
-            while kk < size {
-                assert!(d[pos + kk].len() == 1, "spec table not supplied: SpecEngine handles one block per shard");
-                inp[kk] = get_sym(&d[pos + kk][0], lane);
-                if !is_fft && kk >= trunc {
-                    // ifft contract: everything beyond truncated_size must be zero
-                    assert!(inp[kk] == 0, "ifft called with non-zero data beyond truncated_size");
-                }
-                kk += 1;
-            }
-            let mut i = 0;
-            while i < size {
-                let v = if is_fft && i >= trunc {
-                    // fft contract: outputs at or beyond truncated_size are garbage
-                    k::any::<u16>()
-                } else {
-                    let mut acc = 0u16;
-                    let mut kk = 0;
-                    while kk < size {
-                        acc ^= lin(&words[i * size + kk], inp[kk]);
-                        kk += 1;
+        let nb = blocks_per_shard();
+        let mut blk = 0;
+        while blk < nb {
+            let nl = lanes_in_block(blk);
+            let mut lane = 0;
+            while lane < nl {
+                let mut inp = [0u16; MAX_SIZE];
+                let mut kk = 0;
+                while kk < size {
+                    assert!(d[pos + kk].len() == nb, "spec table not supplied: shard length differs from the declared one");
+                    inp[kk] = get_sym(&d[pos + kk][blk], lane);
+                    if !is_fft && kk >= trunc {
+                        // ifft contract: everything beyond truncated_size must be zero
+                        assert!(inp[kk] == 0, "ifft called with non-zero data beyond truncated_size");
                     }
-                    acc
-                };
-                set_sym(&mut d[pos + i][0], lane, v);
-                i += 1;
+                    kk += 1;
+                }
+                let mut i = 0;
+                while i < size {
+                    let v = if is_fft && i >= trunc {
+                        // fft contract: outputs at or beyond truncated_size are garbage
+                        k::any::<u16>()
+                    } else {
+                        let mut acc = 0u16;
+                        let mut kk = 0;
+                        while kk < size {
+                            acc ^= lin(&words[i * size + kk], inp[kk]);
+                            kk += 1;
+                        }
+                        acc
+                    };
+                    set_sym(&mut d[pos + i][blk], lane, v);
+                    i += 1;
+                }
+                lane += 1;
             }
-            lane += 1;
+            blk += 1;
         }
     }
 }
@@ -188,13 +209,18 @@ impl Engine for SpecEngine {
             return; // g^0 = g^65535 = 1
         }
         let words = crate::gen::spec::mulc_words(log_m).expect("spec table not supplied: multiplication constant");
-        assert!(x.len() == 1, "spec table not supplied: SpecEngine handles one block per shard");
-        let nl = lanes();
-        let mut lane = 0;
-        while lane < nl {
-            let v = get_sym(&x[0], lane);
-            set_sym(&mut x[0], lane, lin(words, v));
-            lane += 1;
+        let nb = blocks_per_shard();
+        assert!(x.len() == nb, "spec table not supplied: shard length differs from the declared one");
+        let mut blk = 0;
+        while blk < nb {
+            let nl = lanes_in_block(blk);
+            let mut lane = 0;
+            while lane < nl {
+                let v = get_sym(&x[blk], lane);
+                set_sym(&mut x[blk], lane, lin(words, v));
+                lane += 1;
+            }
+            blk += 1;
         }
     }
     fn eval_poly(er: &mut [GfElement; GF_ORDER], trunc: usize) {
